@@ -38,9 +38,15 @@ Definition same_keys (a b : list N) : bool :=
 Definition node_avail (w : world) (nid : N) : ores :=
   match filter (fun n => N.eqb (n_id n) nid) (w_nodes w) with n :: _ => n_avail n | [] => None end.
 
+(* the observed sorted order is a rearrangement of the filtered set *)
+Definition rn_order_ok (w : world) (nid : N) (order : list N) : bool :=
+  same_keys order (map a_key (rn_filter w nid)) && nodupN order.
+(* tryPreemption on a given sorted order *)
+Definition rn_try_order (w : world) (nid : N) (order : list N) : outcome :=
+  match rn_victims w (node_avail w nid) (victims_of w order) with
+  | [] => failed
+  | vs => mkO true nid (map a_key vs)
+  end.
 (* tryPreemption for the observed sorted order: None = the order is not a rearrangement of the filtered set *)
 Definition rn_try (w : world) (nid : N) (order : list N) : option outcome :=
-  if same_keys order (map a_key (rn_filter w nid)) && nodupN order then
-    let vs := rn_victims w (node_avail w nid) (victims_of w order) in
-    Some (match vs with [] => failed | _ => mkO true nid (map a_key vs) end)
-  else None.
+  if rn_order_ok w nid order then Some (rn_try_order w nid order) else None.
